@@ -71,9 +71,9 @@ PROPS = {
         thorough=dict(checks=500, shards=16, timeout=3000),
     ),
     "C06": dict(
-        run="^TestC06$",
+        run="^(TestC06|TestC06Race)$",
         level="exploration",
-        rule="histories of real API calls drawn by a rapid state machine from the reference model's current state (virtual clock; profile C06), followed by a drain phase where stated; oracle: observation-driven reference model of Pub/Sub semantics (must / must-not / may sets per pull); N in 1..4 and default, dead-letter topics with 0..3 subscriptions (filtered, ordered), deleted dead-letter topics, chains, pull / nack / modack / ack / advance / sweep in any order; self-loop topologies excluded by construction; non-trivial = history in which at least one message is forwarded to a dead-letter topic; distinct by hash of the operation list",
+        rule="histories of real API calls drawn by a rapid state machine from the reference model's current state (virtual clock; profile C06), followed by a drain phase where stated; oracle: observation-driven reference model of Pub/Sub semantics (must / must-not / may sets per pull); N in 1..4 and default, dead-letter topics with 0..3 subscriptions (filtered, ordered), deleted dead-letter topics, chains, pull / nack / modack / ack / advance / sweep in any order; self-loop topologies excluded by construction; non-trivial = history in which at least one message is forwarded to a dead-letter topic; race runs (TestC06Race, one case in 4): 1-12 messages that have used up a single permitted attempt and are due again, then 2-6 of {pull on the source, background sweep, stream nack of the same deliveries} fired at the same moment from separate goroutines - every message ends up exactly once on the dead-letter subscription (delivery rows counted) and is not delivered on the source again, whoever wins and whichever request fails; distinct by hash of the operation list",
         assumptions=['virtual clock: time.Now/Since/Until in actions/ and services/ are redirected by the build overlay', 'SQLite backend only', "every time comparison carries a 10 ms margin; anything inside a margin or inside the <1 s jitter window is 'may'"],
         quick=dict(checks=1200, timeout=1200),
         thorough=dict(checks=700, shards=16, timeout=3000),
